@@ -160,6 +160,32 @@ func (g *CallGraph) resolveFuncValue(f *ssa.Function, v ssa.Value, depth int, bu
 		return []*ssa.Function{fn}, true
 	case *ssa.ChangeType:
 		return g.resolveFuncValue(f, x.X, depth+1, busy)
+	case *ssa.Call:
+		// the result of a module function that builds the function value (a predicate factory):
+		// what its return statements return
+		sc := x.Call.StaticCallee()
+		if sc == nil || sc.Blocks == nil || !g.c.inModule(sc) || sc.Signature.Results().Len() != 1 {
+			return nil, false
+		}
+		var acc []*ssa.Function
+		n := 0
+		for _, b := range sc.Blocks {
+			if len(b.Instrs) == 0 {
+				continue
+			}
+			if ret, ok := b.Instrs[len(b.Instrs)-1].(*ssa.Return); ok && len(ret.Results) == 1 {
+				ts, ok := g.resolveFuncValue(sc, ret.Results[0], depth+1, busy)
+				if !ok {
+					return nil, false
+				}
+				acc = union(acc, ts)
+				n++
+			}
+		}
+		if n == 0 {
+			return nil, false
+		}
+		return acc, true
 	case *ssa.Phi:
 		var acc []*ssa.Function
 		for _, e := range x.Edges {
